@@ -316,6 +316,10 @@ class AppSide:
         for sid, rs in self.recv.items():
             if not rs.fin and not rs.reset and not rs.stop_requested:
                 out.append(sid)
+        # our own bidirectional streams on which nothing was received yet
+        for sid in self.send:
+            if sid not in self.recv and not (sid & 2) and ((sid & 1) == 0) == self.ep.is_client:
+                out.append(sid)
         return sorted(out)
 
 
@@ -398,6 +402,7 @@ class SimNetwork:
             s.fate = "spoof"
             s.phase = "adv"
             s.copies = 0
+            s.meta = d.meta
             self.in_flight += 1
             self.k.at(self.k.now + base, self._arrive, s, 0, tag="net")
 
@@ -571,6 +576,14 @@ class TransportSim:
         cfg["client_max_stream_data"] = limit()
         cfg["server_max_data"] = limit()
         cfg["server_max_stream_data"] = limit()
+        # stream-count limits advertised by each side: aioquic hard-codes 128; a smaller value is
+        # set on the RECEIVING side's limit objects right after construction (equivalent to a
+        # peer that advertises less), only when the profile asks for it
+        for side in ("client", "server"):
+            if p.get("small_stream_limits", 0) and c.chance(p["small_stream_limits"]):
+                cfg[side + "_max_streams"] = ((0, 1, 2, 3)[c.choose(4)], (0, 1, 2, 3)[c.choose(4)])
+            else:
+                cfg[side + "_max_streams"] = (128, 128)
         cert = p["server_cert"]
         if cert is None:
             cert = ("server_ed25519", "server_ed25519", "server_ed25519", "chain2", "chain5")[c.choose(5)]
@@ -637,6 +650,7 @@ class TransportSim:
         self.client.config = conf
         self.client.secrets = conf.secrets_log_file
         self.client.conn = QuicConnection(configuration=conf, **self.profile.get("client_kwargs", {}))
+        self._post_create(self.client)
 
     def server_accept(self, ep, dgram):
         """What a server front-end (like aioquic.asyncio.server) does before a
@@ -665,7 +679,24 @@ class TransportSim:
             configuration=conf, original_destination_connection_id=dcid,
             **self.profile.get("server_kwargs", {}))
         self.k.trace("server-created", dcid.hex())
+        self._post_create(ep)
         return True
+
+    def _post_create(self, ep):
+        side = "client" if ep.is_client else "server"
+        bidi, uni = self.cfg[side + "_max_streams"]
+        if (bidi, uni) != (128, 128):
+            c = ep.conn
+            c._local_max_streams_bidi.value = c._local_max_streams_bidi.sent = bidi
+            c._local_max_streams_uni.value = c._local_max_streams_uni.sent = uni
+        hook = self.profile.get("post_create")
+        if hook:
+            hook(self, ep)
+
+    def peer_stream_limit(self, ep, uni):
+        """stream-count limit the PEER of ep advertises initially"""
+        side = "server" if ep.is_client else "client"
+        return self.cfg[side + "_max_streams"][1 if uni else 0]
 
     # ------------------------------------------------------------------ timers
     def draw_lateness(self, ep):
@@ -815,6 +846,8 @@ class TransportSim:
                 self.k.trace("op", ep.name, "stop", sid)
                 self.op_log.append((round(self.k.now, 6), ep.name, "stop", sid))
                 ep.api("stop_stream", sid, 3 + size % 100)
+                if sid not in app.recv:
+                    app.recv[sid] = RecvState()
                 app.recv[sid].stop_requested = True
                 done = True
         elif kind == "ping":
